@@ -1,0 +1,426 @@
+//! C15 adapter: the real `QueryEngine` (and its query contexts) behind the line protocol.
+//!
+//! Peers are `crate::verif::peer(i)`; distances given in the operations (`p:dist`) are for the
+//! formal model only, the real code computes them from SHA-256. Logical time: one unit is one
+//! second; before every `next now=<n>` the recorded send instant of each pending `FIND_NODE`
+//! request is rewritten so that its age is exactly `n - sent` seconds, and `peer_timeout` is set to
+//! `T` seconds plus half a second, so the real clock cannot flip a comparison.
+
+use super::{
+    find_node::FindNodeContext, QueryAction, QueryEngine, QueryId, QueryType,
+};
+use crate::{
+    protocol::libp2p::kademlia::{
+        message::KademliaMessage,
+        record::{ContentProvider, Key as RecordKey, Record},
+        types::{ConnectionType, KademliaPeer},
+        Quorum,
+    },
+    verif::{kv, peer, peer_index, VerifBox},
+    PeerId,
+};
+
+use std::{
+    collections::{HashMap, VecDeque},
+    num::NonZeroUsize,
+    time::{Duration, Instant},
+};
+
+pub struct QueryBox {
+    engine: QueryEngine,
+    timeout: u64,
+    /// Logical send time of each `FIND_NODE`-type request.
+    sent: HashMap<(usize, PeerId), u64>,
+}
+
+impl QueryBox {
+    pub fn new() -> Self {
+        Self {
+            engine: QueryEngine::new(peer(0), 20, 3),
+            timeout: 10,
+            sent: HashMap::new(),
+        }
+    }
+}
+
+fn pidx(p: &PeerId) -> String {
+    peer_index(p).map(|i| i.to_string()).unwrap_or_else(|| "?".into())
+}
+
+fn kad(i: u64) -> KademliaPeer {
+    KademliaPeer::new(peer(i), vec![], ConnectionType::NotConnected)
+}
+
+fn is_hex(s: &str) -> bool {
+    !s.is_empty() && s.chars().all(|c| c.is_ascii_hexdigit())
+}
+
+/// `p:dist,p:dist`: the peer numbers (the distances are for the model).
+fn peer_list(s: Option<&&str>) -> Option<Vec<u64>> {
+    match s {
+        None => Some(vec![]),
+        Some(s) if s.is_empty() => Some(vec![]),
+        Some(s) => s
+            .split(',')
+            .map(|x| {
+                let f: Vec<&str> = x.split(':').collect();
+                if f.len() != 2 || !is_hex(f[1]) {
+                    return None;
+                }
+                f[0].parse().ok()
+            })
+            .collect(),
+    }
+}
+
+/// `p,p`
+fn num_list(s: Option<&&str>) -> Option<Vec<u64>> {
+    match s {
+        None => Some(vec![]),
+        Some(s) if s.is_empty() => Some(vec![]),
+        Some(s) => s.split(',').map(|x| x.parse().ok()).collect(),
+    }
+}
+
+fn addr(a: u64) -> crate::types::multiaddr::Multiaddr {
+    format!("/ip4/10.0.0.1/tcp/{}", 1000 + a).parse().expect("addr")
+}
+
+fn addr_index(a: &crate::types::multiaddr::Multiaddr) -> u64 {
+    a.to_string().rsplit('/').next().and_then(|p| p.parse::<u64>().ok()).map(|p| p - 1000).unwrap_or(9999)
+}
+
+/// `p:dist:a+a,…`: providers with their addresses.
+fn prov_list(s: Option<&&str>) -> Option<Vec<ContentProvider>> {
+    match s {
+        None => Some(vec![]),
+        Some(s) if s.is_empty() => Some(vec![]),
+        Some(s) => s
+            .split(',')
+            .map(|x| {
+                let f: Vec<&str> = x.split(':').collect();
+                if f.len() != 3 || !is_hex(f[1]) {
+                    return None;
+                }
+                let addresses = if f[2].is_empty() {
+                    vec![]
+                } else {
+                    f[2].split('+').map(|a| a.parse().ok().map(addr)).collect::<Option<Vec<_>>>()?
+                };
+                Some(ContentProvider { peer: peer(f[0].parse().ok()?), addresses })
+            })
+            .collect(),
+    }
+}
+
+fn quorum(s: Option<&&str>) -> Option<Quorum> {
+    match s {
+        None => Some(Quorum::All),
+        Some(&"all") => Some(Quorum::All),
+        Some(&"one") => Some(Quorum::One),
+        Some(n) => Some(Quorum::N(NonZeroUsize::new(n.parse().ok()?)?)),
+    }
+}
+
+fn show_quorum(q: &Quorum) -> String {
+    match q {
+        Quorum::All => "all".into(),
+        Quorum::One => "one".into(),
+        Quorum::N(n) => n.get().to_string(),
+    }
+}
+
+fn key_of(t: u64) -> RecordKey {
+    RecordKey::from(vec![t as u8])
+}
+
+fn show_key(k: &RecordKey) -> String {
+    k.to_vec().first().map(|b| b.to_string()).unwrap_or_else(|| "?".into())
+}
+
+fn show_peers<'a>(it: impl Iterator<Item = &'a PeerId>, sort: bool) -> String {
+    let mut v: Vec<(u64, String)> = it.map(|p| (peer_index(p).unwrap_or(u64::MAX), pidx(p))).collect();
+    if sort {
+        v.sort();
+    }
+    v.into_iter().map(|x| x.1).collect::<Vec<_>>().join(",")
+}
+
+fn show_provs(ps: &[ContentProvider]) -> String {
+    ps.iter()
+        .map(|p| {
+            let mut a: Vec<u64> = p.addresses.iter().map(addr_index).collect();
+            a.sort();
+            format!("{}:{}", pidx(&p.peer), a.iter().map(|x| x.to_string()).collect::<Vec<_>>().join("+"))
+        })
+        .collect::<Vec<_>>()
+        .join(",")
+}
+
+fn show_action(a: Option<QueryAction>) -> String {
+    match a {
+        None => "none".into(),
+        Some(QueryAction::SendMessage { query, peer, .. }) => format!("send q={} peer={}", query.0, pidx(&peer)),
+        Some(QueryAction::FindNodeQuerySucceeded { query, peers, .. }) =>
+            format!("found q={} peers={}", query.0, show_peers(peers.iter().map(|p| &p.peer), false)),
+        Some(QueryAction::PutRecordToFoundNodes { query, record, peers, quorum }) => format!(
+            "putto q={} rec={} peers={} quorum={}",
+            query.0,
+            record.value.first().copied().unwrap_or(0),
+            show_peers(peers.iter().map(|p| &p.peer), false),
+            show_quorum(&quorum)
+        ),
+        Some(QueryAction::PutRecordQuerySucceeded { query, key }) => format!("putdone q={} key={}", query.0, show_key(&key)),
+        Some(QueryAction::AddProviderToFoundNodes { query, provided_key, provider, peers, quorum }) => format!(
+            "addto q={} key={} prov={} peers={} quorum={}",
+            query.0,
+            show_key(&provided_key),
+            pidx(&provider.peer),
+            show_peers(peers.iter().map(|p| &p.peer), false),
+            show_quorum(&quorum)
+        ),
+        Some(QueryAction::AddProviderQuerySucceeded { query, provided_key }) =>
+            format!("adddone q={} key={}", query.0, show_key(&provided_key)),
+        Some(QueryAction::GetRecordQueryDone { query_id }) => format!("getdone q={}", query_id.0),
+        Some(QueryAction::GetRecordPartialResult { query_id, record }) => format!(
+            "partial q={} peer={} rec={}",
+            query_id.0,
+            pidx(&record.peer),
+            record.record.value.first().copied().unwrap_or(0)
+        ),
+        Some(QueryAction::GetProvidersQueryDone { query_id, providers, .. }) =>
+            format!("provsdone q={} provs={}", query_id.0, show_provs(&providers)),
+        Some(QueryAction::QuerySucceeded { query }) => format!("ctx-succeeded q={}", query.0),
+        Some(QueryAction::QueryFailed { query }) => format!("failed q={}", query.0),
+    }
+}
+
+fn find_ctx_dump<T: Clone + Into<Vec<u8>>>(c: &FindNodeContext<T>) -> String {
+    let (ctr, to) = c.verif_counters();
+    format!(
+        "fn pending={} queried={} cands={} resp={} ctr={} to={}",
+        show_peers(c.pending.keys(), true),
+        show_peers(c.queried.iter(), true),
+        show_peers(c.candidates.values().map(|p| &p.peer), false),
+        show_peers(c.responses.values().map(|p| &p.peer), false),
+        ctr,
+        show_peers(to.iter(), true),
+    )
+}
+
+impl QueryBox {
+    fn age<T: Clone + Into<Vec<u8>>>(sent: &HashMap<(usize, PeerId), u64>, q: usize, c: &mut FindNodeContext<T>, now: u64) {
+        let real = Instant::now();
+        for (p, (_, instant)) in c.pending.iter_mut() {
+            let s = sent.get(&(q, *p)).copied().unwrap_or(now);
+            let age = now.saturating_sub(s);
+            *instant = real.checked_sub(Duration::from_secs(age)).expect("system uptime exceeds the logical age");
+        }
+    }
+
+    fn set_timeout(&mut self, q: usize) {
+        let t = Duration::from_millis(self.timeout * 1000 + 500);
+        match self.engine.queries.get_mut(&QueryId(q)) {
+            Some(QueryType::FindNode { context }) => context.verif_set_peer_timeout(t),
+            Some(QueryType::PutRecord { context, .. }) => context.verif_set_peer_timeout(t),
+            Some(QueryType::AddProvider { context, .. }) => context.verif_set_peer_timeout(t),
+            _ => {}
+        }
+    }
+
+    fn start(&mut self, kind: &str, a: &HashMap<&str, &str>) -> Option<String> {
+        let q: usize = a.get("q")?.parse().ok()?;
+        let t: u64 = a.get("t")?.parse().ok()?;
+        let cands: VecDeque<KademliaPeer> = peer_list(a.get("cands"))?.into_iter().map(kad).collect();
+        let quorum = quorum(a.get("quorum"))?;
+        let rec: u8 = match a.get("rec") {
+            None => 0,
+            Some(r) => r.parse().ok()?,
+        };
+        let record = Record::new(key_of(t), vec![rec]);
+        match kind {
+            "find" => {
+                self.engine.start_find_node(QueryId(q), peer(t), cands);
+            }
+            "putrec" => {
+                self.engine.start_put_record(QueryId(q), record, cands, quorum);
+            }
+            "puttopeers" => {
+                self.engine.start_put_record_to_peers(QueryId(q), record, cands.into_iter().collect(), quorum);
+            }
+            "getrec" => {
+                let local = match a.get("local") {
+                    None | Some(&"0") => false,
+                    Some(&"1") => true,
+                    _ => return None,
+                };
+                self.engine.start_get_record(QueryId(q), key_of(t), cands, quorum, local);
+            }
+            "addprov" => {
+                let p: u64 = a.get("prov")?.parse().ok()?;
+                let provider = ContentProvider { peer: peer(p), addresses: vec![] };
+                self.engine.start_add_provider(QueryId(q), key_of(t), provider, cands, quorum);
+            }
+            "getprov" => {
+                let known = prov_list(a.get("known"))?;
+                self.engine.start_get_providers(QueryId(q), key_of(t), cands, known);
+            }
+            "trackput" => {
+                let peers = num_list(a.get("peers"))?.into_iter().map(peer).collect();
+                self.engine.start_put_record_to_found_nodes_requests_tracking(QueryId(q), key_of(t), peers, quorum);
+            }
+            "trackadd" => {
+                let peers = num_list(a.get("peers"))?.into_iter().map(peer).collect();
+                self.engine.start_add_provider_to_found_nodes_requests_tracking(QueryId(q), key_of(t), peers, quorum);
+            }
+            _ => return None,
+        }
+        self.set_timeout(q);
+        Some("ok".into())
+    }
+
+    fn message(a: &HashMap<&str, &str>) -> Option<KademliaMessage> {
+        let peers: Vec<KademliaPeer> = peer_list(a.get("peers"))?.into_iter().map(kad).collect();
+        Some(match *a.get("kind")? {
+            "find" => KademliaMessage::FindNode { target: vec![], peers },
+            "put" => KademliaMessage::PutValue { record: Record::new(key_of(0), vec![0]) },
+            "add" => KademliaMessage::AddProvider { key: key_of(0), providers: vec![] },
+            "value" => {
+                let record = match *a.get("rec")? {
+                    "none" => None,
+                    v => {
+                        let mut r = Record::new(key_of(0), vec![v.parse::<u8>().ok()?]);
+                        match a.get("exp") {
+                            None | Some(&"0") => {}
+                            Some(&"1") => r.expires = Some(Instant::now()),
+                            _ => return None,
+                        }
+                        Some(r)
+                    }
+                };
+                KademliaMessage::GetRecord { key: None, record, peers }
+            }
+            "provs" => KademliaMessage::GetProviders {
+                key: None,
+                peers,
+                providers: prov_list(a.get("provs"))?.into_iter().map(Into::into).collect(),
+            },
+            _ => return None,
+        })
+    }
+
+    fn dump(&self, q: usize) -> String {
+        match self.engine.queries.get(&QueryId(q)) {
+            None => "absent".into(),
+            Some(QueryType::FindNode { context }) => find_ctx_dump(context),
+            Some(QueryType::PutRecord { context, .. }) => find_ctx_dump(context),
+            Some(QueryType::AddProvider { context, .. }) => find_ctx_dump(context),
+            Some(QueryType::PutRecordToPeers { context, .. }) =>
+                format!("fm peers={}", show_peers(context.peers_to_report.iter().map(|p| &p.peer), false)),
+            Some(QueryType::GetRecord { context }) => format!(
+                "gr pending={} queried={} cands={} found={} records={}",
+                show_peers(context.pending.keys(), true),
+                show_peers(context.queried.iter(), true),
+                show_peers(context.candidates.values().map(|p| &p.peer), false),
+                context.found_records,
+                context
+                    .records
+                    .iter()
+                    .map(|r| format!("{}:{}", pidx(&r.peer), r.record.value.first().copied().unwrap_or(0)))
+                    .collect::<Vec<_>>()
+                    .join(","),
+            ),
+            Some(QueryType::GetProviders { context }) => format!(
+                "gp pending={} queried={} cands={} found={}",
+                show_peers(context.pending.keys(), true),
+                show_peers(context.queried.iter(), true),
+                show_peers(context.candidates.values().map(|p| &p.peer), false),
+                context
+                    .found_providers
+                    .iter()
+                    .map(|p| {
+                        let mut a: Vec<u64> = p.addresses().iter().map(addr_index).collect();
+                        a.sort();
+                        format!("{}:{}", pidx(&p.peer), a.iter().map(|x| x.to_string()).collect::<Vec<_>>().join("+"))
+                    })
+                    .collect::<Vec<_>>()
+                    .join(","),
+            ),
+            Some(QueryType::PutRecordToFoundNodes { context }) | Some(QueryType::AddProviderToFoundNodes { context }) => {
+                let (need, pending, ok) = context.verif_state();
+                format!("pt pending={} ok={} need={}", show_peers(pending.iter(), true), ok, need)
+            }
+        }
+    }
+}
+
+impl VerifBox for QueryBox {
+    fn step(&mut self, line: &str) -> String {
+        let t: Vec<&str> = line.split_whitespace().filter(|x| *x != "!flush").collect();
+        if t.is_empty() {
+            return "bad-op".into();
+        }
+        let a = kv(&t[1..]);
+        let num = |k: &str| a.get(k).and_then(|v| v.parse::<u64>().ok());
+        let bad = || "bad-op".to_string();
+        match t[0] {
+            "engine" => {
+                let (Some(l), Some(r), Some(p), Some(to)) = (num("local"), num("repl"), num("par"), num("timeout")) else {
+                    return bad();
+                };
+                self.engine = QueryEngine::new(peer(l), r as usize, p as usize);
+                self.timeout = to.min(1_000_000);
+                self.sent.clear();
+                "ok".into()
+            }
+            "start" if t.len() >= 2 => {
+                let a = kv(&t[2..]);
+                self.start(t[1], &a).unwrap_or_else(bad)
+            }
+            "next" => {
+                let Some(now) = num("now") else { return bad() };
+                let order: Vec<usize> = self.engine.queries.keys().map(|q| q.0).collect();
+                for (q, ty) in self.engine.queries.iter_mut() {
+                    match ty {
+                        QueryType::FindNode { context } => Self::age(&self.sent, q.0, context, now),
+                        QueryType::PutRecord { context, .. } => Self::age(&self.sent, q.0, context, now),
+                        QueryType::AddProvider { context, .. } => Self::age(&self.sent, q.0, context, now),
+                        _ => {}
+                    }
+                }
+                let action = self.engine.next_action();
+                if let Some(QueryAction::SendMessage { query, peer, .. }) = &action {
+                    self.sent.insert((query.0, *peer), now);
+                }
+                format!(
+                    "order={} {}",
+                    order.iter().map(|q| q.to_string()).collect::<Vec<_>>().join(","),
+                    show_action(action)
+                )
+            }
+            "resp" => {
+                let (Some(q), Some(p)) = (num("q"), num("peer")) else { return bad() };
+                let Some(m) = Self::message(&a) else { return bad() };
+                self.engine.register_response(QueryId(q as usize), peer(p), m);
+                "ok".into()
+            }
+            "fail" | "sendok" | "sendfail" | "peerfail" | "peeraction" | "dump" => {
+                let Some(q) = num("q") else { return bad() };
+                if t[0] == "dump" {
+                    return self.dump(q as usize);
+                }
+                let Some(p) = num("peer") else { return bad() };
+                let (q, p) = (QueryId(q as usize), peer(p));
+                match t[0] {
+                    "fail" => self.engine.register_response_failure(q, p),
+                    "sendok" => self.engine.register_send_success(q, p),
+                    "sendfail" => self.engine.register_send_failure(q, p),
+                    "peerfail" => self.engine.register_peer_failure(q, p),
+                    _ => return show_action(self.engine.next_peer_action(&q, &p)),
+                }
+                "ok".into()
+            }
+            _ => bad(),
+        }
+    }
+}
